@@ -93,7 +93,7 @@ theorem specImports_ge (w : World) (fi : Nat) (h : w.files.length ≤ fi) : spec
 
 /-- **C04 (transitive imports)**: exactly the files reachable through one or more imports. -/
 theorem C04_transitive (w : World) (hv : Valid w) (g : Graph) (hg : hydrate w = .ok g) (fi j : Nat) :
-    j ∈ sortNat (transImports g w.files.length fi) ↔ Reach (specImports w) fi j := by
+    j ∈ sortNat (transImports g w.files.length fi) ↔ ReachN (specImports w) fi j := by
   have hdeps : g.depsOf = specImports w := funext (C04_imports w hv g hg)
   rw [mem_sortNat, transImports_eq_clos, hdeps]
   constructor
@@ -107,7 +107,7 @@ theorem C04_transitive (w : World) (hv : Valid w) (g : Graph) (hg : hydrate w = 
 
 /-- **C04 (dependents)**: exactly the files that reach it through one or more imports. -/
 theorem C04_dependents (w : World) (hv : Valid w) (g : Graph) (hg : hydrate w = .ok g) (fi j : Nat) :
-    j ∈ sortNat (dependentsOf g w.files.length w.files.length fi) ↔ Reach (specImports w) j fi := by
+    j ∈ sortNat (dependentsOf g w.files.length w.files.length fi) ↔ ReachN (specImports w) j fi := by
   have hdeps : g.depsOf = specImports w := funext (C04_imports w hv g hg)
   rw [mem_sortNat, dependentsOf_eq_clos]
   have hfwd : ∀ x y, y ∈ directDependents g w.files.length x → x ∈ specImports w y := by
@@ -144,7 +144,7 @@ theorem C04_not_failed (w : World) (hv : Valid w) : (c04Model w).failed = false 
 
 /-! non-vacuity on the example request of Props/C01: b.proto imports a.proto -/
 example : specImports exW 1 = [0] := by decide
-example : Reach (specImports exW) 1 0 := .step (by decide)
+example : ReachN (specImports exW) 1 0 := .step (by decide)
 
 /-- **C04 (imports of a field / extension)**: computed from the declarative type of that very
     field: the file of the enum / message it references (directly, as element or as map value) when
